@@ -30,8 +30,9 @@ type Program struct {
 	ModFuncs []*ssa.Function          // all module functions incl. closures, sorted by key
 	Scanned  []*ssa.Function          // module functions that rules scan (not generated, not testutils)
 
-	cg        *CallGraph
-	callerIdx *callerIndex
+	cg          *CallGraph
+	callerIdx   *callerIndex
+	fieldStores map[string][]*ssa.Store
 }
 
 // Load type-checks ./pkg/... of repo (no tests) and builds SSA for the whole
